@@ -1,7 +1,7 @@
 ENGINES = [
     {"name": "crashmc", "path": "mc/crashmc.py", "serves_properties": ["C07"],
      "kind_free_text": "crash-point enumeration over the syscall log (strace) of the real writer: all byte prefixes of the write sequence, recovery and restart executed on the real library"},
-    {"name": "gridmc", "path": "mc/checks", "serves_properties": ["C02", "C11", "C12", "C18", "C20"],
+    {"name": "gridmc", "path": "mc/checks", "serves_properties": ["C02", "C03", "C11", "C12", "C18", "C20"],
      "kind_free_text": "exhaustive enumeration of finite option lattices / member lists crossed with small branch-covering data alphabets, each point compared with an oracle independent of REBOUND"},
     {"name": "histmc", "path": "mc/histmc.py", "serves_properties": ["C05", "C06", "C08", "C09", "C13", "C14", "C15", "C17"],
      "kind_free_text": "explicit-state breadth-first exploration of operation histories on the real library object (state = history, canonical digest de-duplication, reference-model oracle on every transition)"},
@@ -10,6 +10,14 @@ NOTES = ("All checks explore the real implementation rebuilt from /repo's workin
          "so traces_validated_against_impl equals the number of executed transitions. known_findings.json lists repaired defects (fixed:) and recorded ones.")
 NOT_APPLICABLE = {}
 CHECKS = {
+    "C03": {
+        "engine": "gridmc", "category": "exploration",
+        "technique": "exhaustive enumeration of a branch-covering lattice of two-body inputs (e, a, GM, phase, dt/P, sign) through the exported Kepler solver and through one step of every WH-type integrator, against a 40-digit universal-variable propagation with closed-form Stumpff functions; every call under an alarm",
+        "text": "9.4k solver inputs (quick; thorough 28k): e in {0,1e-12,1e-4,0.1,0.5,0.9,0.99,1-1e-6,1+1e-6,1.01,1.5,10,1e3} x a{1e-6,1,1e6} x GM{1e-3,1,1e3} x 12 phases (peri-/apocentre and +-1e-8 around them) x |dt|/P in {1e-8,1e-4,9e-3,1.1e-2 (solver switch),0.1,0.5,1,1.5,10,1e3} x sign "
+                "through reb_whfast_kepler_solver; 7.4k single steps of WHFast x 4 coordinate systems, SABA1, MERCURIUS, TRACE on a two-body simulation (massless and, where the splitting is exact, massive secondary), and two-step sequences step/synchronize[/copy]/step in the deferred-synchronisation modes. "
+                "Reference at 40 digits; tolerance = 4096x (solver) / 8192x (step) the summed effect of a 1-ulp change of each input on the reference plus the forward-error bound of the f-g evaluation (observed maximum 273x). Finite results and termination are part of the oracle.",
+        "note": "Hybrid integrators only away from encounters (TRACE with S_peri=none, no near-parabolic pericentre passages). WHFast512 is not covered.",
+    },
     "C11": {
         "engine": "gridmc", "category": "exploration",
         "technique": "exhaustive enumeration of an element lattice (branch-covering values for e, inc, angles, anomaly kinds), of all argument-name subsets up to size 4 through both front ends, and of an e x M lattice for the anomaly functions; oracle = 40-digit evaluation of the textbook map and of Kepler's equation",
